@@ -18,7 +18,7 @@ K_C05 = kh("c05_mirror", ["c05_opt_u8", "c05_opt_u16", "c05_opt_u32", "c05_opt_u
                           "c05_opt_res_u8_u32", "c05_res_u8_u64", "c05_res_u64_u8", "c05_res_i32_unit",
                           "c05_res_unit_unit", "c05_res_f32_char", "c05_res_opt_u16_bool", "c05_ver_u8_u64",
                           "c05_ver_u32_unit", "c05_ver_unit_unit", "c05_ver_unit_i16", "c05_ver_f64_bool",
-                          "c05_ver_opt_u8_val3"])
+                          "c05_ver_opt_u8_val3", "c05_ver_val9_u32", "c05_res_u64_val17"])
 
 
 LEX3 = ["c06_ipv6_3", "c06_ipv4_3", "c06_two_char_3", "c06_one_char_3", "c06_as_number_3", "c06_hex_number_3", "c06_number_3",
@@ -26,15 +26,16 @@ LEX3 = ["c06_ipv6_3", "c06_ipv4_3", "c06_two_char_3", "c06_one_char_3", "c06_as_
 LEX4 = ["c06_ipv6_4", "c06_ipv4_4", "c06_as_number_4", "c06_hex_number_4", "c06_number_4", "c06_string_4", "c06_char_4",
         "c06_keyword_or_ident_4", "c06_number_ascii_5", "c06_ipv4_ascii_5", "c06_f_string_part_4", "c06_err_span_4"]
 K_C06 = kh("c06_lexer", LEX3, "quick", 1800) + kh("c06_lexer", LEX4, "thorough", 3600)
-K_C09 = kh("c09_grammar", ["c09_number_ascii_4", "c09_hex_asn_ascii_4", "c09_ident_3", "c09_precedence_table", "c09_quoted_ascii_4"], "quick", 1800) \
-    + kh("c09_grammar", ["c09_number_ascii_5", "c09_hex_asn_ascii_5", "c09_ident_4", "c09_quoted_ascii_5"], "thorough", 3600)
+K_C09 = kh("c09_grammar", ["c09_number_ascii_4", "c09_hex_asn_ascii_4", "c09_ident_3", "c09_precedence_table", "c09_quoted_ascii_5"], "quick", 1800) \
+    + kh("c09_grammar", ["c09_number_ascii_5", "c09_hex_asn_ascii_5", "c09_ident_4"], "thorough", 3600)
 K_C10 = kh("c10_builtins", ["c10_prefix_new_total_v4", "c10_prefix_new_total_v6"], "quick", 600)
-K_C17 = kh("c17_strings", ["c17_bytes_view_2", "c17_lines_get_2"], "quick", 1800) \
+K_C17 = kh("c17_strings", ["c17_bytes_view_2", "c17_bytes_get_3", "c17_lines_get_2"], "quick", 1800) \
     + kh("c17_strings", ["c17_bytes_view_3"], "thorough", 3600)
 K_C20 = kh("c20_memory", ["c20_memory_write_read", "c20_memory_rejects"], "quick", 1200)
 K_C15 = kh("c15_list", ["c15_compute_capacity", "c15_eq_distinct_rust", "c15_eq_alias", "c15_eq_distinct_erased_len"], "quick", 1200)
-K_C16 = kh("c16_sched", ["c16_get_vs_push1_linearizable"], "quick", 2400) \
+K_C16 = kh("c16_sched", ["c16_get_vs_push1_linearizable", "c16_len_vs_push1_linearizable"], "quick", 2400) \
     + kh("c16_sched", ["c16_get_vs_push4_realloc_site1", "c16_get_vs_clone_drop"], "thorough", 5400)
+THOROUGH_MEM = {"c16_sched::c16_get_vs_push4_realloc_site1": 48}
 
 
 def c15_generated():
@@ -47,14 +48,21 @@ def select(table, tier):
     return [(n, to) for (n, t, to) in table if t == "quick" or tier == "thorough"]
 
 
-def kani_part(res, table, known=()):
+def kani_part(res, table, known=(), hunt=()):
+    """hunt: [(name, timeout_s, mem_gb)] obligations that are only *attempted to refute* in the quick tier"""
     sel = select(table, res.tier)
     by_to = {}
     for n, to in sel:
-        by_to.setdefault(to, []).append(n)
+        by_to.setdefault((to, THOROUGH_MEM.get(n, 16)), []).append(n)
+    hunt_names = set()
+    if res.tier == "quick":
+        for n, to, mem in hunt:
+            if n not in [x for x, _ in sel]:
+                by_to.setdefault((to, mem), []).append(n)
+                hunt_names.add(n)
     out = []
-    for to, names in by_to.items():
-        out += K.run_set(res, names, timeout=to, known=known)
+    for (to, mem), names in by_to.items():
+        out += K.run_set(res, names, timeout=to, mem_gb=mem, known=known, hunt=hunt_names)
     return out
 
 
@@ -67,6 +75,7 @@ def finish_k(res, results, rule, samples, assumptions):
         "samples": samples,
         "obligations": len(results),
         "discharged": len([r for r in results if r["status"] == "ok"]),
+        "undecided_refutation_attempts": [r["harness"] for r in results if str(r["status"]).startswith("undecided")],
         "checks_decided_by_cbmc": sum(r["checks"] for r in results),
         "solver_s": round(sum((r["cbmc_s"] or 0) for r in results), 1),
         "exhaustive": False,
@@ -128,7 +137,8 @@ def c08(res):
 
 
 def c06(res):
-    r = kani_part(res, K_C06)
+    # Span::character_range on 2 bytes: CBMC refutes a wrong range in ~5 min but needs more than 14 GB to prove the correct one
+    r = kani_part(res, K_C06, hunt=[("c06_lexer::c06_char_range_2", 600, 14)])
     finish_k(res, r,
              "one Kani harness per token recogniser: EVERY UTF-8 string of <= 3 bytes (thorough: 4 bytes, ASCII 5) is symbolic input; "
              "non-trivial = the harness's reachability witnesses (e.g. a full-length non-ASCII input was handled) are satisfiable",
@@ -144,7 +154,7 @@ def c06(res):
 
 def c09(res):
     r = kani_part(res, K_C09)
-    T.run_tv(res, {"F2", "F8"}, {"value"},
+    T.run_tv(res, {"F2", "F8"}, {"value"}, reject_is_violation=True,
              note="literal spellings denote the value an independent decoder assigns; unparenthesised operator chains == the tree built from the documented precedence table")
     finish_k(res, r,
              "Kani: recognisers vs reference scanners written from the documented grammar, every ASCII string <= 4 bytes (ident: UTF-8 <= 3); "
@@ -153,7 +163,7 @@ def c09(res):
                "same int/float classification, same digits/suffix split, same extent"},
               {"harness": "c09_precedence_table", "obligation": "for all operator pairs (a, b): relative_associativity == documented table"}],
              TRUST_K + T.TRUST_T + ["reference scanners in kani/src/c09_grammar.rs", "escape decoding (rustc_literal_escaper) and IP literal parsing (std::net) outside the claim"])
-    res.cov["evaluations"] += res.cov["tv"]["programs"]
+    res.cov["evaluations"] = res.cov.get("evaluations", 0) + res.cov["tv"]["programs"]
 
 
 def c10(res):
@@ -183,7 +193,9 @@ def c15(res):
 
 
 def c16(res):
-    r = kani_part(res, K_C16)
+    # the relocation schedule is proved only in the thorough tier (48 GB, ~25 min); in the quick tier it is run as a
+    # refutation attempt: on a tree with the stale-pointer window CBMC finds the counterexample in 2-5 minutes
+    r = kani_part(res, K_C16, hunt=[("c16_sched::c16_get_vs_push4_realloc_site1", 540, 24)])
     finish_k(res, r,
              "schedule = symbolic input: at every schedule point (hook H3) of the running operation a kani::any() bit decides whether the other "
              "thread's whole operation runs there; CBMC's deallocated-object checks + linearisability against the array model",
@@ -218,7 +230,7 @@ def c20(res):
                                     "engine M covers straight-line scalar programs only: Jump/Switch/Call/Return plumbing, CallRuntime, memory instructions and therefore "
                                     "host-call-sequence equality are outside; per-instruction agreement is what is decided"])
     res.level = "translation_validation"
-    res.cov["evaluations"] += res.cov["mir"]["decided"]
+    res.cov["evaluations"] = res.cov.get("evaluations", 0) + res.cov["mir"]["decided"]
 
 
 CHECKS = {"C01": c01, "C02": c02, "C03": c03, "C05": c05, "C06": c06, "C08": c08, "C09": c09, "C10": c10, "C15": c15, "C16": c16,
@@ -241,6 +253,22 @@ def replay(pid, path):
         for k, v in rep.items():
             print(f"--- {k}\n{v['tail']}")
         if how:
+            print(f"VIOLATION property={pid} replay={path}")
+            return 1
+        return 0
+    if obj.get("engine") == "tv-compile":
+        import tempfile
+        T.build()
+        sys.path.insert(0, os.path.join(VERIF, "tv"))
+        import tv as TV
+        d = tempfile.mkdtemp(dir=BUILD)
+        script = os.path.join(d, "replay.roto")
+        open(script, "w").write(obj["source"])
+        TV.dump_programs([script], d)
+        r = json.load(open(os.path.join(d, "replay.json")))
+        print("compile:", r.get("compile"), (r.get("report") or "")[:400])
+        shutil.rmtree(d, ignore_errors=True)
+        if r.get("compile") != "ok":
             print(f"VIOLATION property={pid} replay={path}")
             return 1
         return 0
